@@ -103,7 +103,7 @@ pub fn run(tier: &str, seed: u64, threads: usize) {
     let evals = AtomicU64::new(0);
     let nontrivial = AtomicU64::new(0);
     let enumerated = AtomicU64::new(0);
-    let random_n: u64 = if tier == "thorough" { 60_000_000 } else { 2_000_000 };
+    let random_n: u64 = if tier == "thorough" { 3_000_000_000 } else { 100_000_000 };
 
     // leapers and pawns: all 64 squares, both colours for pawns
     let board = Board::default();
